@@ -192,6 +192,13 @@ func (g *gateway) totalAlloc() (uint64, error) {
 	return v.Memstats.TotalAlloc, nil
 }
 
+func (g *gateway) totalAllocSlow() (uint64, error) {
+	old := httpc.Timeout
+	httpc.Timeout = 60 * time.Second
+	defer func() { httpc.Timeout = old }()
+	return g.totalAlloc()
+}
+
 // fatal stops every gateway process, then exits with the driver-failure status.
 func fatal(format string, a ...any) {
 	stopAll()
@@ -414,13 +421,30 @@ type respCase struct {
 	Lines  []int    `json:"lines"`
 }
 
-func runResp(g *gateway, c *respCase, w *vt.Writer) {
+// diesWithin waits for the gateway process to exit (a panic takes a moment to unwind).
+func (g *gateway) diesWithin(d time.Duration) bool {
+	select {
+	case <-g.done:
+		return true
+	case <-time.After(d):
+		return false
+	}
+}
+
+// runResp returns false if the case has to be repeated on a fresh gateway process.
+func runResp(g *gateway, c *respCase, w *vt.Writer) bool {
 	a0, err := g.totalAlloc()
 	if err != nil {
+		if g.diesWithin(10 * time.Second) {
+			return false // killed by the previous case after that case had been recorded as alive: run again on a fresh gateway
+		}
 		fatal("metrics before case %d: %v", c.ID, err)
 	}
 	conn, err := net.DialTimeout("tcp", g.addr, ioTimeout)
 	if err != nil {
+		if g.diesWithin(10 * time.Second) {
+			return false
+		}
 		fatal("dial: %v", err)
 	}
 	defer conn.Close()
@@ -479,21 +503,28 @@ func runResp(g *gateway, c *respCase, w *vt.Writer) {
 	_ = conn.Close()
 	time.Sleep(2 * time.Millisecond)
 	alive := g.alive()
+	unresponsive := false
 	var alloc int64 = -1
 	if alive {
 		a1, err := g.totalAlloc()
+		if err != nil && !g.diesWithin(10*time.Second) {
+			// alive but not answering (e.g. the runtime is busy with a giant allocation): one long retry
+			a1, err = g.totalAllocSlow()
+		}
 		if err != nil {
-			// the process may be dying right now
-			time.Sleep(300 * time.Millisecond)
-			alive = g.alive()
-			if alive {
-				fatal("metrics after case %d: %v", c.ID, err)
-			}
+			// dying (a panic is unwinding) or unresponsive for more than 80 s: recorded as not alive
+			unresponsive = g.alive()
+			alive = false
+			g.stop()
 		} else {
 			alloc = int64(a1 - a0)
+			if !eof && g.diesWithin(300*time.Millisecond) {
+				alive = false
+			}
 		}
 	}
-	w.Emit(vt.Ev{"s": c.ID, "out": hex.EncodeToString(got), "eof": eof, "alive": alive, "alloc": alloc, "sent": sent, "waited": waitOK})
+	w.Emit(vt.Ev{"s": c.ID, "out": hex.EncodeToString(got), "eof": eof, "alive": alive, "alloc": alloc, "sent": sent, "waited": waitOK, "unresponsive": unresponsive})
+	return true
 }
 
 func countLines(b []byte) int {
@@ -574,7 +605,15 @@ func main() {
 					fail("%v", err)
 				}
 			}
-			runResp(g, &cases[i], w)
+			if !runResp(g, &cases[i], w) {
+				g.stop()
+				if g, err = startGateway(*bin, *dir); err != nil {
+					fail("%v", err)
+				}
+				if !runResp(g, &cases[i], w) {
+					fail("case %d: the gateway died twice before the case could start", cases[i].ID)
+				}
+			}
 		}
 	default:
 		fail("unknown mode %q", *mode)
